@@ -93,6 +93,15 @@ static spifmem_memrec_t pixmap_rec;
  */
 static spifmem_memrec_t gc_rec;
 
+#ifdef LIBAST_VERIF
+/* Verification hook (read-only): address of the private allocation table. */
+spifmem_memrec_t *
+spifmem_verif_malloc_rec(void)
+{
+    return &malloc_rec;
+}
+#endif
+
 /**
  * Initialize memory management system.
  *
